@@ -32,12 +32,14 @@ ASSUMPTIONS = [
 ]
 
 
-def check_case(ctx, L, case):
+def check_case(ctx, L, case, delivery=None):
     O.reset_state()
     r = model_for_case(L, case)
-    obs = O.run_decode(case.type, case.data, command_code=case.cc, enc=case.enc, strict=True)
+    obs = O.run_decode(case.type, case.data, command_code=case.cc, enc=case.enc, strict=True, delivery=delivery)
     payload = case_payload(case)
-    ctx.case((case.type, case.cc, case.enc, case.data), nontrivial_wellformed(case), sample=case.brief())
+    if delivery:
+        payload["delivery"] = delivery
+    ctx.case((case.type, case.cc, case.enc, case.data, delivery), nontrivial_wellformed(case), sample=case.brief())
     classify_wellformed(ctx, case)
     if obs.outcome["kind"] != "ok":
         o = obs.outcome
@@ -64,6 +66,9 @@ def run_shard(ctx):
     for case in ctx.mine(huge):
         ctx.count("huge-encodings")
         ctx.run_plain(lambda case=case: check_case(ctx, L, case), f"huge:{case.type}:{len(case.data)}")
+        # the long encodings also through the text front end, from files and from a plain generator (buffered readers)
+        for d in ("hex", "files", "generator") if len(case.data) <= 20000 else ("files",):
+            ctx.run_plain(lambda case=case, d=d: check_case(ctx, L, case, delivery=d), f"huge:{case.type}:{len(case.data)}:{d}")
     wellformed_campaign(ctx, L, lambda case: check_case(ctx, L, case), 2 if ctx.quick() else 6, 8000 if ctx.quick() else 80000)
 
 
@@ -73,4 +78,4 @@ def finalize(merged):
 
 def replay(ctx, payload):
     L = layout()
-    check_case(ctx, L, ReplayCase(L, payload))
+    check_case(ctx, L, ReplayCase(L, payload), delivery=payload.get("delivery"))
